@@ -416,12 +416,16 @@ def run_sequence(fam, steps, name, failures, samples, distinct, counters):
                                                  exception=type(ex).__name__)))
                 return 'raised-unexpected:%s:%s' % tag
             applied += 1
-            evaluate(si, step_kind(step), step['op'] in CC.PROMISES_VALID_MESH)
+            kind = step_kind(step)
+            if step['op'] == 'refine' and not isinstance(cs, list) and cs['cols'] and all(geo.column.get(nm) is not None for nm in cs['cols']) \
+                    and any(cl.num_nodes > 4 for cl in geo.columnlist):
+                kind += '-refused'      # refine() declined (a column with more than 4 sides is affected) and kept the selection
+            evaluate(si, kind, step['op'] in CC.PROMISES_VALID_MESH)
         if len(samples) < 2:
             samples.append(dict(sequence=[step_text(s) for s in steps], family=fam,
                                 final_status={k: v for k, v in status.items()}, columns=geo.num_columns))
         return 'checked'
-    res = sym.explore(h, sym.Ctx(timeout_ms=60000), max_paths=600)
+    res = sym.explore(h, sym.Ctx(timeout_ms=20000), max_paths=600, wall_s=900)
     return res
 
 
@@ -484,25 +488,26 @@ def alphabet(level, ncols):
              dict(op='add_well', name='w1'), dict(op='delete_well', name='w1'), dict(op='decompose', sel='all'), dict(op='triangulate', col=0)]
     if level == 'mid': return mid14 + extra
     A = []
+    lean = level == 'full-quick'
     subsets = _subsets(ncols) if ncols <= 4 else [[0], [ncols - 1], [0, 1], [1, 4], [0, 1, 2], [0, 2, 3, 5], [1, 2, 3, 4, 5], list(range(ncols))]
     for sub in subsets:
         A.append(dict(op='refine', sel=sub))
         A.append(dict(op='reduce', sel=sub))
-    for sub in subsets[:6]:
+    for sub in subsets[:3 if lean else 6]:
         A.append(dict(op='refine', sel=sub, bisect='x'))
         A.append(dict(op='refine', sel=sub, bisect='y'))
     A.append(dict(op='refine', sel=[0], bisect=True))
     A.append(dict(op='refine', sel=[0], edge=[1]))
-    for cidx in range(min(ncols, 4)):
+    for cidx in range(min(ncols, 2 if lean else 4)):
         for nd in range(4):
             A.append(dict(op='split', col=cidx, node=nd))
         A.append(dict(op='delete_column', col=cidx))
     for layers in ([], [1], [2], [1, 2]):
-        for f in (2, 3):
+        for f in ((2,) if lean else (2, 3)):
             A.append(dict(op='refine_layers', layers=layers, factor=f))
     A += [dict(op='snap', sel='all'), dict(op='snap', sel=[0, 1]), dict(op='snap_nearest', sel='all'), dict(op='snap_nearest', sel=[1])]
     A += [a for a in mid14 + extra if a['op'] not in ('refine', 'split', 'delete_column', 'snap', 'snap_nearest', 'refine_layers', 'reduce')]
-    A += [dict(op='rotate', angle=90.0), dict(op='copy_layers_from', n=1), dict(op='rename_column', col='last', name='  a'),
+    A += [dict(op='rotate', angle=90.0), dict(op='copy_layers_from', n=1), dict(op='rename_column', col='last', name='q q'),
           dict(op='delete_connection', which='last')]
     return A
 
@@ -516,10 +521,10 @@ def plan(tier):
     thorough = tier == 'thorough'
     fams = [('R2x2', R22, 4), ('R3x2', R32, 6), ('MIX', MIXS, 5)]
     for tag, fam, n in fams:
-        A1 = alphabet('full' if thorough or tag == 'R2x2' else 'mid', n)
+        A1 = alphabet('full' if thorough else ('full-quick' if tag == 'R2x2' else 'mid'), n)
         batches(fam, [[a] for a in A1], '%s/len1' % tag, 10)
-        if thorough: A2 = alphabet('mid', n)[:20] if tag == 'R2x2' else alphabet('small', n)
-        else: A2 = alphabet('small' if tag == 'R2x2' else 'tiny', n)
+        if thorough: A2 = alphabet('mid', n)[:16] if tag == 'R2x2' else alphabet('small', n)
+        else: A2 = alphabet('small', n)[:6] if tag == 'R2x2' else alphabet('tiny', n)[:4]
         batches(fam, [[a, b] for a in A2 for b in A2], '%s/len2' % tag, 12 if thorough else 8)
         if thorough:
             A3 = alphabet('small', n)[:6] if tag == 'R2x2' else alphabet('tiny', n)[:4]
@@ -529,10 +534,10 @@ def plan(tier):
          dict(op='snap', sel=[1]), dict(op='delete_column', col='last'), dict(op='reduce', sel=[0, 1, 2])]
     for tag, fam in (('MIXc', MIXC), ('HANG', HANG)):
         batches(fam, [[a] for a in D], '%s/len1' % tag, 7)
-        D2 = D if thorough else D[:4]
+        D2 = D if thorough else D[:3]
         batches(fam, [[a, b] for a in D2 for b in D2], '%s/len2' % tag, 10 if thorough else 8)
         if thorough:
-            D3 = D[:4]
+            D3 = D[:3]
             batches(fam, [[a, b, d] for a in D3 for b in D3 for d in D3], '%s/len3' % tag, 12)
     return out
 
@@ -550,7 +555,7 @@ def run(tier, seed, rep):
     if seed:
         import random
         random.Random(seed).shuffle(tasks)
-    results = report.run_tasks(tasks)
+    results = report.run_tasks(tasks, wall_s=1500 if tier == 'thorough' else 420)
     rep.add_results(results)
     nseq = sum(len(s) for _f, s, _n in pl)
     by_len = {}
@@ -559,6 +564,7 @@ def run(tier, seed, rep):
     checked = sum(r.get('outcomes', {}).get('checked', 0) for r in results if not r.get('error'))
     if checked == 0: rep.harness_error('no sequence reached the end')
     rep.extra['sequences'] = nseq
+    rep.extra['tier_plan'] = tier
     rep.extra['sequences_by_length'] = by_len
     rep.extra['concrete_clause_evaluations'] = sum(r.get('extra', {}).get('concrete_evaluations', 0) for r in results if not r.get('error'))
     rep.extra['path_outcomes'] = {}
@@ -571,10 +577,10 @@ def run(tier, seed, rep):
             nseq, ', '.join('%d of length %d' % (v, k) for k, v in sorted(by_len.items())), 3 if tier == 'thorough' else 2),
         'meshes: RECT(2x2) and RECT(3x2) with symbolic spacings/origin/2 layer thicknesses/per-column surfaces (enumerated placement pattern), MIX (2 quadrilaterals, 2 triangles, 1 pentagon on a fixed layout with symbolic stretch sx, sy > 0 and origin), '
         'MIXc (same, concrete coordinates, for decompose_columns), HANG (hexagonal column with two hanging nodes and four small neighbours, symbolic lengths)',
-        'length 1: refine / reduce with every column subset of RECT(2x2) (8 representative subsets on 3x2, MIX), x/y/longest bisection, bisected edge column, split_column at every node of up to 4 columns, delete_column, '
-        'refine_layers (4 layer subsets x factor 2,3), snap_columns_to_layers (symbolic threshold), snap_columns_to_nearest_layers, rename_column/layer, delete+add column, add/delete node, delete(+add) connection, add/delete layer, '
+        'length 1: refine / reduce with every column subset of RECT(2x2) (8 representative subsets on 3x2, MIX in the thorough tier), x/y/longest bisection, bisected edge column, split_column at every node of 2 (quick) / 4 (thorough) columns, delete_column, '
+        'refine_layers (4 layer subsets x factor 2 (,3 thorough)), snap_columns_to_layers (symbolic threshold), snap_columns_to_nearest_layers, rename_column/layer, delete+add column, add/delete node, delete(+add) connection, add/delete layer, '
         'add/delete well, translate (symbolic shift), rotate 30 and 90 degrees about the symbolic origin, copy_layers_from (1 or 3 symbolic layers), decompose_columns, triangulate_column',
-        'length 2: %s; length 3 (thorough only): 6-operation alphabet cubed on RECT(2x2), 4-operation alphabet cubed on the other meshes' % ('20-operation alphabet squared on RECT(2x2), 8-operation alphabet squared on RECT(3x2) and MIX, 7 squared on MIXc and HANG' if tier == 'thorough' else '8-operation alphabet squared on RECT(2x2), 5-operation alphabet squared on RECT(3x2) and MIX, 4 squared on MIXc and HANG'),
+        'length 2: %s; length 3 (thorough only): 6-operation alphabet cubed on RECT(2x2), 4-operation alphabet cubed on RECT(3x2) and MIX, 3 cubed on MIXc and HANG' % ('16-operation alphabet squared on RECT(2x2), 8-operation alphabet squared on RECT(3x2) and MIX, 7 squared on MIXc and HANG' if tier == 'thorough' else '6-operation alphabet squared on RECT(2x2), 4-operation alphabet squared on RECT(3x2) and MIX, 3 squared on MIXc and HANG'),
         'for each sequence and each path: the four solver clauses hold for ALL values of the symbols']
     rep.outside += ['sequences longer than %d; operation arguments outside the alphabet; meshes other than the five listed' % (3 if tier == 'thorough' else 2),
                     'random sequences up to length 25 on geometries up to 300 columns, the shipped geometries, the file round trip after the edits (C03 covers the round trip)',
